@@ -405,6 +405,25 @@ func runC04(c *core.Ctx) {
 					caseDoc{Files: map[string]string{"all.yaml": full, "none.yaml": ""}, Args: sargs, Observed: resDoc(sres)})
 			}
 		}
+		// one file named twice (as book and as log) reads like two copies of it: each role gets the whole file
+		if i%5 == 2 {
+			srv.Write(map[string]string{"twin.yaml": text})
+			for _, cmd := range [][]string{{"reg"}, {"bal"}, {"report", "unresolved"}, {"report", "totals"}, {"stats"}} {
+				same := srv.App1(append([]string{"--no-color", "-d", "food.yaml", "-l", "food.yaml"}, cmd...), nil)
+				twoArgs := append([]string{"--no-color", "-d", "twin.yaml", "-l", "food.yaml"}, cmd...)
+				two := srv.App1(twoArgs, nil)
+				c.Eval(2)
+				c.Count("cli_one_file_in_both_roles", 1)
+				if cmd[0] == "stats" {
+					two.Out = strings.ReplaceAll(two.Out, "twin.yaml", "food.yaml")
+				}
+				if same.Exit != two.Exit || same.Out != two.Out || same.ErrText() != strings.ReplaceAll(two.ErrText(), "twin.yaml", "food.yaml") {
+					c.Violation(strings.Join(cmd, " ")+"|one-file-in-both-roles", fmt.Sprintf("-d F -l F %s: exit %d, %d bytes; with a copy of F as the book: exit %d, %d bytes (%s / %s)", joinArgs(cmd), same.Exit, len(same.Out), two.Exit, len(two.Out), clip(same.ErrText(), 80), clip(two.ErrText(), 80)),
+						caseDoc{Files: map[string]string{"food.yaml": clip(text, 20000), "twin.yaml": "(a copy of food.yaml)"}, Args: twoArgs, Expected: resDoc(two), Observed: resDoc(same)})
+					break
+				}
+			}
+		}
 		// the same file through a pipe (-d /dev/stdin): a non-seekable input must read the same
 		if i%4 == 0 {
 			pargs := []string{"-d", "/dev/stdin", "csv", "database"}
